@@ -115,12 +115,15 @@ def load_mir(path, crate):
                     cur = None
                 else:
                     cur.lines.append(line)
-    # `const fn` bodies are emitted twice (runtime + const-eval MIR): keep the first
+    # `const fn` bodies are emitted twice (runtime + const-eval MIR) and macro-generated functions
+    # (`__starlark_invoke_impl`) share one name: identical (header, body) pairs are dropped, same-header functions
+    # with different bodies are all kept (lookups that need a unique answer take the first of a same-header group)
     out = []
     for m in fns:
-        if m.header in seen:
+        key = (m.header, m.sha())
+        if key in seen:
             continue
-        seen.add(m.header)
+        seen.add(key)
         out.append(m)
     return out
 
@@ -154,7 +157,7 @@ class MirDB:
             ax = re.compile(args)
             ms = [f for f in ms if ax.search(f.header)]
         if unique:
-            if len(ms) != 1:
+            if len({m.header for m in ms}) != 1:
                 raise LookupError(f'find({pattern!r}, {args!r}) matched {len(ms)}: {[m.header[:140] for m in ms[:6]]}')
             return ms[0]
         return ms
@@ -173,7 +176,7 @@ class MirDB:
             ax = re.compile(args)
             ms = [m for m in ms if ax.search(m.header)]
         if unique:
-            if len(ms) != 1:
+            if len({m.header for m in ms}) != 1:
                 raise LookupError(f'find_in_file({file_suffix!r}, {item!r}, {args!r}) matched {len(ms)}: {[m.header[:160] for m in ms[:6]]}')
             return ms[0]
         return ms
